@@ -1,4 +1,5 @@
 import Cuke.Lemmas.SchedFin
+import Cuke.Lemmas.SchedFinRule
 import Cuke.Props.C05
 import Cuke.Lemmas.Sched
 import Cuke.Lemmas.SchedLts
@@ -338,5 +339,112 @@ example : Cuke.SchedSeq.NClean (acceptN Cuke.C05.rcfg Cuke.C05.rlog) = true ∧
       [some (.featFinished 0)] := by decide +kernel
 /-- the earlier notification (of the attempt that is retried) closes nothing -/
 example : Cuke.SchedFin.closes Cuke.C05.rcfg (acceptN Cuke.C05.rcfg (Cuke.C05.rlog.take 16)).base = none := by decide +kernel
+
+/-! ## … and the same for rules -/
+
+open Cuke.SchedFin Cuke.SchedFinR Cuke.SchedSeq Cuke.SchedExit Cuke.SchedOrd in
+/-- **Rule::Finished comes after the last event of the rule's scenarios (retries included).** At the notification
+    at which the last scenario of rule `(f, r)` is counted (where the model owes `Rule::Finished f r`,
+    `closesR_owes_finished`) and at every later moment of a run that is clean in both layers, no attempt of a scenario of
+    that rule is in flight … -/
+theorem lts_rule_finished_after_last_attempt (c : SCfg) (hwf : WF c) (hwr : WFR c) (pre post : List Label) (id : Nat)
+    (failed retried : Bool) (f r : Nat) (hcl : closesR c (acceptN c pre).base = some (f, r))
+    (hc : NClean (acceptN c (pre ++ .notif id failed retried :: post)) = true) :
+    ∀ e ∈ (acceptN c (pre ++ .notif id failed retried :: post)).base.running, ¬ (e.key.feat = f ∧ e.key.rule = some r) := by
+  obtain ⟨hr, hti⟩ := accR_inv c hwf hwr _ hc
+  have hcl' := closesR_recorded c pre post id failed retried (f, r) hcl
+  intro e he hef
+  rcases hti with hex | hfi
+  · rw [hex.2.1] at he; cases he
+  · obtain ⟨ft, hft, _, hown, _⟩ := ownerR c hwf hwr _ hr e (by simp [SchedRetry.ents, he])
+    rw [hef.1] at hft
+    have := hfi.closedLive f ft r hft hcl'
+    rw [liveCntR_zero] at this
+    apply this e.key.scen (hown r hef.2)
+    right
+    simp only [Rs, SchedCons.scens, mem_map]
+    exact ⟨e, he, rfl⟩
+
+open Cuke.SchedFin Cuke.SchedFinR Cuke.SchedSeq Cuke.SchedOrd in
+/-- … hence no scenario event of the rule is ever sent after that notification. -/
+theorem lts_no_scenario_event_after_rule_closed (c : SCfg) (hwf : WF c) (hwr : WFR c) (pre p1 p2 : List Label) (id : Nat)
+    (failed retried : Bool) (f r : Nat) (k : ScenKey) (ret : Option Retries) (se : ScenEv)
+    (hcl : closesR c (acceptN c pre).base = some (f, r))
+    (hc : NClean (acceptN c (pre ++ .notif id failed retried :: (p1 ++ .tx (.scen k ret se) :: p2))) = true) :
+    ¬ (k.feat = f ∧ k.rule = some r) := by
+  have hsplit : acceptN c (pre ++ .notif id failed retried :: (p1 ++ .tx (.scen k ret se) :: p2)) =
+      p2.foldl (stepN c) (stepN c (acceptN c (pre ++ .notif id failed retried :: p1)) (.tx (.scen k ret se))) := by
+    simp [acceptN, foldl_append]
+  rw [hsplit] at hc
+  have h1 : NClean (stepN c (acceptN c (pre ++ .notif id failed retried :: p1)) (.tx (.scen k ret se))) = true :=
+    nclean_foldl_mono c p2 _ hc
+  have h0 : NClean (acceptN c (pre ++ .notif id failed retried :: p1)) = true := nclean_step_mono c _ _ h1
+  have hrun := lts_rule_finished_after_last_attempt c hwf hwr pre p1 id failed retried f r hcl h0
+  have hc0 : Clean0 (stepL c (acceptN c (pre ++ .notif id failed retried :: p1)).base (.tx (.scen k ret se))) = true := by
+    simp only [NClean, Bool.and_eq_true] at h1
+    have := h1.1
+    rwa [stepN_base] at this
+  obtain ⟨e, he, hk⟩ := tx_scen_running c _ k ret se hc0
+  rw [← hk]
+  exact hrun e he
+
+/-- the catalog of the C07 witness run (a feature with a rule) satisfies the rule well-formedness -/
+example : Cuke.SchedFinR.ruleScenIds ⟨0, [], [⟨1, [], 1⟩], [⟨7, [], [⟨2, [], 1⟩, ⟨3, [], 1⟩]⟩]⟩ 7 = [2, 3] := by decide
+
+/-! non-vacuity for the rule clause: the retry example run with its scenario inside a rule -/
+def rcfgR : SCfg :=
+  { Cuke.C05.rcfg with feats := [⟨0, [], [], [⟨7, [], [Cuke.C05.sr]⟩]⟩] }
+def kr : ScenKey := ⟨0, some 7, 1⟩
+def rlogR : List Label :=
+  [.hookTake, .tx .started, .pOk 0, .ins 0 [] [⟨10, 1, some ⟨0, 2⟩, none⟩], .pEnd, .tx (.parsingFinished 1 1 1 1 0), .pFinish,
+   .get1 1 (some 2) 0 1, .get2 1 (.cont (some 2)) [10] false 0, .tx (.featStarted 0), .tx (.ruleStarted 0 7), .disp 1 (.cont (some 1)),
+   .tx (.scen kr (some ⟨0, 2⟩) .started), .tx (.scen kr (some ⟨0, 2⟩) .finished),
+   .ins 2 [] [⟨11, 1, some ⟨1, 1⟩, none⟩], .endA 10 true true 2,
+   .cons true, .notif 10 true true,
+   .get1 3 (some 2) 0 1, .get2 3 (.cont (some 2)) [11] false 0, .disp 1 (.cont (some 1)),
+   .tx (.scen kr (some ⟨1, 1⟩) .started), .tx (.scen kr (some ⟨1, 1⟩) .finished), .endA 11 false false 4,
+   .cons true, .notif 11 false false, .tx (.ruleFinished 0 7), .tx (.featFinished 0),
+   .get1 5 (some 2) 0 0, .get2 5 (.cont (some 2)) [] false 0, .idle true false, .tx .finished, .hookRestore, .exit]
+
+theorem rcfgR_wf : Cuke.SchedSeq.WF rcfgR := by
+  constructor
+  · decide
+  · intro ft hft ft' hft' x _ _
+    simp only [rcfgR, mem_singleton] at hft hft'
+    rw [hft, hft']
+  · intro ft hft ft' hft' _
+    simp only [rcfgR, mem_singleton] at hft hft'
+    rw [hft, hft']
+
+theorem rcfgR_wfr : Cuke.SchedFinR.WFR rcfgR := by
+  constructor
+  · intro ft hft ru hru ru' hru' _
+    simp only [rcfgR, mem_singleton] at hft
+    subst hft
+    simp only [mem_singleton] at hru hru'
+    rw [hru, hru']
+  · intro ft hft ru hru
+    simp only [rcfgR, mem_singleton] at hft
+    subst hft
+    simp only [mem_singleton] at hru
+    subst hru
+    decide
+  · intro ft hft ru hru ru' hru' x _ _
+    simp only [rcfgR, mem_singleton] at hft
+    subst hft
+    simp only [mem_singleton] at hru hru'
+    rw [hru, hru']
+  · intro ft hft ru hru x hx
+    simp only [rcfgR, mem_singleton] at hft
+    subst hft
+    simp at hx
+
+/-- the run is clean in both layers; the notification at position 25 closes rule (0, 7) AND feature 0; the model owes
+    `Rule::Finished` then `Feature::Finished` -/
+example : Cuke.SchedSeq.NClean (acceptN rcfgR rlogR) = true ∧
+    Cuke.SchedFinR.closesR rcfgR (acceptN rcfgR (rlogR.take 25)).base = some (0, 7) ∧
+    Cuke.SchedFin.closes rcfgR (acceptN rcfgR (rlogR.take 25)).base = some 0 ∧
+    (acceptN rcfgR (rlogR.take 26)).base.expect.map (fun x => match x with | .one e => some e | _ => none) =
+      [some (.ruleFinished 0 7), some (.featFinished 0)] := by decide +kernel
 
 end Cuke.C03
